@@ -81,6 +81,99 @@ fn class_of(p: &Prop) -> String {
 }
 
 // ---------------------------------------------------------------------------
+// delivery: directly to the sink, or through a runtime with ambient context
+// ---------------------------------------------------------------------------
+
+type Tlc = emit::platform::thread_local_ctxt::ThreadLocalCtxt;
+
+/// The hand-written macro call sites of the runtime section (`gen_macro_event` is their model).
+fn macro_site<E: Emitter, F: emit::Filter, C: emit::Ctxt, T: emit::Clock, R: emit::Rng>(rt: &emit::runtime::Runtime<E, F, C, T, R>, me: &ModelEvent) {
+    let get = |k: &str| &me.props.iter().find(|p| p.key == k).expect("macro site argument").model;
+    let vid: &str = &me.vid;
+    let int = |k: &str| match get(k) {
+        M::I64(x) => *x,
+        other => unreachable!("{:?}", other),
+    };
+    let text = |k: &str| match get(k) {
+        M::Str(x) => x.as_str(),
+        other => unreachable!("{:?}", other),
+    };
+    match me.macro_site.expect("macro site") {
+        0 => {
+            let (a, user) = (int("a"), text("user"));
+            emit::emit!(rt, "{vid} macro emit {a}", vid, a, user);
+        }
+        1 => {
+            let (a, data) = (int("a"), get("data"));
+            emit::info!(rt, "{vid} macro info", vid, #[emit::as_serde] data, a);
+        }
+        2 => {
+            let user = text("user");
+            emit::warn!(rt, "{vid} macro warn {user}", vid, user);
+        }
+        3 => {
+            let err = match get("err") {
+                M::Error(e) => e,
+                other => unreachable!("{:?}", other),
+            };
+            emit::error!(rt, "{vid} macro error", vid, err);
+        }
+        4 => {
+            let (a, data) = (int("key with space"), get("data"));
+            emit::debug!(rt, "{vid} macro debug", vid, #[emit::as_sval] data, #[emit::key("key with space")] k: a);
+        }
+        5 => {
+            let a = int("a");
+            let ts = me.emit_extent();
+            emit::emit!(rt, extent: ts, "{vid} macro extent", vid, a);
+        }
+        _ => {
+            let user = text("user");
+            let ts = me.emit_extent();
+            emit::emit!(rt, extent: ts, "{vid} macro span", vid, evt_kind: emit::Kind::Span, #[emit::as_display] user);
+        }
+    }
+}
+
+fn emit_through<E: Emitter, F: emit::Filter, C: emit::Ctxt + Copy, T: emit::Clock, R: emit::Rng>(rt: &emit::runtime::Runtime<E, F, C, T, R>, me: &ModelEvent, mode: u64) {
+    me.with_frames(*rt.ctxt(), 0, &mut || {
+        if me.macro_site.is_some() {
+            macro_site(rt, me);
+        } else if mode == 0 {
+            me.with_event(|evt| rt.emit(evt));
+        } else {
+            me.with_event(|evt| emit::emit!(rt, evt));
+        }
+    });
+}
+
+/// Hand every event to `sink`, each under `catch_unwind`. With `via_rt` the events go through a
+/// statically typed `Runtime` (even indices) or through the type-erased runtime of an initialised
+/// `AmbientSlot` (odd indices), both with the sink as emitter, a `ThreadLocalCtxt` holding the
+/// event's ambient frames and a clock reading `me.clock`.
+fn deliver<E: Emitter + Send + Sync + 'static>(sink: std::sync::Arc<E>, via_rt: bool, events: &[(u64, ModelEvent)], mut before: impl FnMut(u64), mut after: impl FnMut(usize, Result<(), String>)) {
+    if !via_rt {
+        for (n, (idx, me)) in events.iter().enumerate() {
+            before(*idx);
+            after(n, catch(|| me.with_event(|evt| sink.emit(evt))));
+        }
+        return;
+    }
+    let clock = vcommon::rec::FakeClock::new(BASE_NANOS);
+    let ctxt = Tlc::new();
+    let stat = emit::runtime::Runtime::build(sink.clone(), emit::Empty, &ctxt, clock.clone(), vcommon::rec::CountingRng::new());
+    let slot = emit::runtime::AmbientSlot::new();
+    let init = emit::setup().emit_to(sink.clone()).with_ctxt(Tlc::new()).with_clock(clock.clone()).with_rng(vcommon::rec::CountingRng::new()).init_slot(&slot);
+    let ambient = init.get();
+    for (n, (idx, me)) in events.iter().enumerate() {
+        clock.set(me.clock.unwrap_or(BASE_NANOS));
+        before(*idx);
+        let res = if idx % 2 == 0 { catch(|| emit_through(&stat, me, (idx / 2) % 2)) } else { catch(|| emit_through(ambient, me, (idx / 2) % 2)) };
+        after(n, res);
+    }
+}
+
+// ---------------------------------------------------------------------------
 // file sink
 // ---------------------------------------------------------------------------
 
@@ -126,14 +219,25 @@ fn check_file_line(cx: &mut Ctx, me: &ModelEvent, idx: u64, line: &str) {
     }
     // fixed fields
     let mut fixed: Vec<(&str, Option<String>)> = vec![("mdl", Some(me.mdl.clone())), ("msg", Some(me.msg_text())), ("tpl", Some(me.tpl_text()))];
-    match me.extent {
-        None => {
-            fixed.push(("ts", None));
-            fixed.push(("ts_start", None));
+    if me.wild.is_some() {
+        // hostile extents: only presence and well-formedness of the timestamps are required
+        cx.r.observe("file:wild-extent-lines", 1);
+        let ts_ok = tree.count("ts") == 1 && tree.get("ts").and_then(|v| v.as_str()).is_some();
+        let start_n = tree.count("ts_start");
+        let start_ok = if me.is_range() { start_n <= 1 } else { start_n == 0 };
+        if !ts_ok || !start_ok {
+            cx.violation(me, idx, "C13:file:fixed-field:wild-extent", format!("hostile extent {:?}: ts / ts_start fields are not well-formed in {}", me.wild, clip(line)));
         }
-        Some((start, end)) => {
-            fixed.push(("ts", Some(ts_text(end))));
-            fixed.push(("ts_start", start.map(ts_text)));
+    } else {
+        match me.eff_extent() {
+            None => {
+                fixed.push(("ts", None));
+                fixed.push(("ts_start", None));
+            }
+            Some((start, end)) => {
+                fixed.push(("ts", Some(ts_text(end))));
+                fixed.push(("ts_start", start.map(ts_text)));
+            }
         }
     }
     for (k, want) in fixed {
@@ -182,16 +286,19 @@ fn check_file_line(cx: &mut Ctx, me: &ModelEvent, idx: u64, line: &str) {
     }
 }
 
-fn run_file(cx: &mut Ctx, dir: &str, events: &[(u64, ModelEvent)]) {
+fn run_file(cx: &mut Ctx, dir: &str, events: &[(u64, ModelEvent)], via_rt: bool) {
     let sub = format!("{}/f", dir);
     std::fs::create_dir_all(&sub).expect("create dir");
-    let set = emit_file::set(format!("{}/log.txt", sub)).spawn();
+    let set = std::sync::Arc::new(emit_file::set(format!("{}/log.txt", sub)).spawn());
     let mut emitted: Vec<usize> = Vec::new();
-    for (n, (idx, me)) in events.iter().enumerate() {
+    let mut results: Vec<Result<(), String>> = Vec::new();
+    deliver(set.clone(), via_rt, events, |_| {}, |_, res| results.push(res));
+    for (n, res) in results.into_iter().enumerate() {
+        let (idx, me) = &events[n];
         cx.r.observe("file:events", 1);
-        match catch(|| me.with_event(|evt| set.emit(evt))) {
+        match res {
             Ok(()) => emitted.push(n),
-            Err(p) => cx.violation(me, *idx, &format!("C13:file:panic:{}", if me.compound_key_shapes().is_empty() { "event" } else { "compound-key" }), format!("emit_file panicked on the caller thread: {}", p)),
+            Err(p) => cx.violation(me, *idx, &format!("C13:file:panic:{}", if me.compound_key_shapes().is_empty() { if me.wild.is_some() { "wild-extent" } else { "event" } } else { "compound-key" }), format!("emit_file panicked on the caller thread: {}", p)),
         }
     }
     if !set.blocking_flush(Duration::from_secs(30)) {
@@ -427,7 +534,8 @@ fn check_exception(cx: &mut Ctx, me: &ModelEvent, idx: u64, enc: Enc, signal: &s
             }
         }
     }
-    if let (M::Error(e), Cap::Error) = (&p.model, p.cap) {
+    // an error buffered in the ambient context is not promised to keep its source chain
+    if let (M::Error(e), Cap::Error, false) = (&p.model, p.cap, p.buffered) {
         let sources = &e.messages()[1..];
         match (sources.is_empty(), attr(attrs, "exception.stacktrace")) {
             (true, None) => {}
@@ -466,8 +574,8 @@ fn check_ids(cx: &mut Ctx, me: &ModelEvent, idx: u64, enc: Enc, signal: &str, fi
 fn check_log(cx: &mut Ctx, me: &ModelEvent, idx: u64, enc: Enc, r: &LogRec) {
     let s = "logs";
     cx.r.observe("otlp:log-records", 1);
-    let end = me.extent.map(|e| e.1).unwrap_or(0);
-    if r.time != end || r.observed != end {
+    let end = me.eff_extent().map(|e| e.1).unwrap_or(0);
+    if me.wild.is_none() && (r.time != end || r.observed != end) {
         cx.violation(me, idx, "C13:otlp:logs:timestamp", format!("{} logs: time {} observed {}, expected {}", enc.name(), r.time, r.observed, end));
     }
     if r.scope != me.mdl {
@@ -490,8 +598,9 @@ fn check_log(cx: &mut Ctx, me: &ModelEvent, idx: u64, enc: Enc, r: &LogRec) {
 fn check_span(cx: &mut Ctx, me: &ModelEvent, idx: u64, enc: Enc, r: &SpanRec) {
     let s = "traces";
     cx.r.observe("otlp:span-records", 1);
-    let (start, end) = match me.extent {
-        Some((Some(a), b)) => (a, b),
+    let (start, end) = match (me.wild, me.eff_extent()) {
+        (Some((Some(_), _)), _) => (r.start, r.end),
+        (None, Some((Some(a), b))) => (a, b),
         _ => {
             cx.violation(me, idx, "C13:otlp:traces:not-a-span", format!("{} traces: an event without a range extent was exported as a span", enc.name()));
             return;
@@ -526,7 +635,7 @@ fn check_span(cx: &mut Ctx, me: &ModelEvent, idx: u64, enc: Enc, r: &SpanRec) {
         if r.events.len() != 1 || r.events[0].name != "exception" {
             cx.violation(me, idx, "C13:otlp:traces:exception-event", format!("{} traces: err present but events are {:?}", enc.name(), r.events.iter().map(|e| &e.name).collect::<Vec<_>>()));
         } else {
-            if r.events[0].time != end {
+            if me.wild.is_none() && r.events[0].time != end {
                 cx.violation(me, idx, "C13:otlp:traces:exception-event-time", format!("{} traces: exception event at {}, span ends {}", enc.name(), r.events[0].time, end));
             }
             check_exception(cx, me, idx, enc, s, &r.events[0].attrs);
@@ -625,11 +734,14 @@ fn check_metric(cx: &mut Ctx, me: &ModelEvent, idx: u64, enc: Enc, r: &MetricRec
         }
     }
     let agg = text_of("metric_agg");
-    let temporality = match me.extent {
-        None => 0,
-        Some((None, _)) => 2,
-        Some((Some(_), _)) => 1,
+    let temporality = match (me.wild, me.eff_extent()) {
+        (Some((None, _)), _) => 2,
+        (Some((Some(_), _)), _) => 1,
+        (None, None) => 0,
+        (None, Some((None, _))) => 2,
+        (None, Some((Some(_), _))) => 1,
     };
+    let wild = me.wild.is_some();
     let want_data = match &agg {
         Some(Some(a)) if a == "count" => Some(MetricData::Sum(temporality, true)),
         Some(Some(a)) if a == "sum" => Some(MetricData::Sum(temporality, false)),
@@ -642,7 +754,7 @@ fn check_metric(cx: &mut Ctx, me: &ModelEvent, idx: u64, enc: Enc, r: &MetricRec
             cx.violation(me, idx, "C13:otlp:metrics:data-kind", format!("{} metrics: data {:?}, expected {:?} for metric_agg {:?}", enc.name(), r.data, w, agg));
         }
     }
-    let (start, end) = match me.extent {
+    let (start, end) = match me.eff_extent() {
         None => (0, 0),
         Some((None, e)) => (e, e),
         Some((Some(s), e)) => (s, e),
@@ -653,7 +765,7 @@ fn check_metric(cx: &mut Ctx, me: &ModelEvent, idx: u64, enc: Enc, r: &MetricRec
             let zero_sum = is_sum && matches!((w, r.points.first().map(|p| &p.value)), (PointWant::Double(a), Some(PointValue::Double(Some(b)))) if a == 0.0 && *b == 0.0);
             if r.points.len() != 1 || !(point_matches(w, &r.points[0].value) || zero_sum) {
                 cx.violation(me, idx, "C13:otlp:metrics:point-value:scalar", format!("{} metrics: points {:?}, expected one point {:?}", enc.name(), r.points.iter().map(|p| &p.value).collect::<Vec<_>>(), w));
-            } else if r.points[0].start != start || r.points[0].time != end {
+            } else if !wild && (r.points[0].start != start || r.points[0].time != end) {
                 cx.violation(me, idx, "C13:otlp:metrics:point-time", format!("{} metrics: point {}..{}, expected {}..{}", enc.name(), r.points[0].start, r.points[0].time, start, end));
             }
         }
@@ -664,6 +776,9 @@ fn check_metric(cx: &mut Ctx, me: &ModelEvent, idx: u64, enc: Enc, r: &MetricRec
             }
             let mut last = start;
             for p in &r.points {
+                if wild {
+                    break;
+                }
                 if p.start < last || p.time < p.start || p.time > end.max(start) {
                     cx.violation(me, idx, "C13:otlp:metrics:point-time", format!("{} metrics: point {}..{} outside / out of order in {}..{}", enc.name(), p.start, p.time, start, end));
                     break;
@@ -770,7 +885,7 @@ fn find_records<'a>(d: &'a Decoded, vid: &str) -> Found<'a> {
     }
 }
 
-fn run_otlp(cx: &mut Ctx, collector: &Collector, batch: &str, events: &[(u64, ModelEvent)], dump: bool) {
+fn run_otlp(cx: &mut Ctx, collector: &Collector, batch: &str, events: &[(u64, ModelEvent)], dump: bool, via_rt: bool) {
     let mut decoded: BTreeMap<&'static str, Decoded> = BTreeMap::new();
     let mut panicked: BTreeMap<(&'static str, usize), String> = BTreeMap::new();
     for enc in [Enc::Proto, Enc::Json] {
@@ -790,12 +905,13 @@ fn run_otlp(cx: &mut Ctx, collector: &Collector, batch: &str, events: &[(u64, Mo
                 .metrics(emit_otlp::metrics_json(emit_otlp::http(collector.url(&format!("{}/v1/metrics", base))).allow_compression(false)))
                 .spawn(),
         };
-        for (n, (_, me)) in events.iter().enumerate() {
-            cx.r.observe(&format!("otlp:{}:events", enc.name()), 1);
-            if let Err(p) = catch(|| me.with_event(|evt| otlp.emit(evt))) {
+        let otlp = std::sync::Arc::new(otlp);
+        cx.r.observe(&format!("otlp:{}:events", enc.name()), events.len() as u64);
+        deliver(otlp.clone(), via_rt, events, |_| {}, |n, res| {
+            if let Err(p) = res {
                 panicked.insert((enc.name(), n), p);
             }
-        }
+        });
         if !otlp.blocking_flush(Duration::from_secs(30)) {
             cx.r.inconclusive(format!("emit_otlp ({}) did not flush within 30 s", enc.name()));
         }
@@ -848,6 +964,8 @@ fn run_otlp(cx: &mut Ctx, collector: &Collector, batch: &str, events: &[(u64, Mo
             if let Some(p) = panicked.get(&(enc.name(), n)) {
                 if let Some(shape) = compound.first() {
                     cx.violation(me, *idx, &format!("C13:otlp:map-key:{}:panic", shape), format!("emit_otlp ({}) panicked on the caller thread for a map with {} keys: {}", enc.name(), shape, p));
+                } else if me.wild.is_some() {
+                    cx.violation(me, *idx, &format!("C13:otlp:{}:panic:wild-extent:{:?}", enc.name(), me.kind), format!("emit_otlp ({}) panicked on the caller thread for a hostile extent {:?}: {}", enc.name(), me.wild, p));
                 } else {
                     cx.violation(me, *idx, &format!("C13:otlp:{}:panic", enc.name()), format!("emit_otlp ({}) panicked on the caller thread: {}", enc.name(), p));
                 }
@@ -902,15 +1020,18 @@ const BLOCKS: &[char] = &['▁', '▂', '▃', '▄', '▅', '▆', '▇'];
 
 fn term_child(seed: u64, section: &str, from: u64, to: u64, compound: bool) {
     install_quiet_panic_hook();
-    let term = emit_term::stdout().colored(false);
-    for (idx, me) in section_events(seed, section, from, to, compound) {
-        println!("@@BEGIN {}", idx);
-        let res = catch(|| me.with_event(|evt| term.emit(evt)));
-        match res {
-            Ok(()) => println!("\n@@END {} ok", idx),
-            Err(p) => println!("\n@@END {} panic {}", idx, p.replace('\n', " ")),
-        }
-    }
+    let term = std::sync::Arc::new(emit_term::stdout().colored(false));
+    let events = section_events(seed, section, from, to, compound);
+    deliver(
+        term,
+        section == "rt",
+        &events,
+        |idx| println!("@@BEGIN {}", idx),
+        |n, res| match res {
+            Ok(()) => println!("\n@@END {} ok", events[n].0),
+            Err(p) => println!("\n@@END {} panic {}", events[n].0, p.replace('\n', " ")),
+        },
+    );
 }
 
 fn run_term(cx: &mut Ctx, events: &[(u64, ModelEvent)], from: u64, to: u64, compound: bool) {
@@ -954,7 +1075,7 @@ fn run_term(cx: &mut Ctx, events: &[(u64, ModelEvent)], from: u64, to: u64, comp
             }
         };
         if status != "ok" {
-            cx.violation(me, *idx, "C13:term:panic", format!("emit_term panicked on the caller thread: {}", status));
+            cx.violation(me, *idx, if me.wild.is_some() { "C13:term:panic:wild-extent" } else { "C13:term:panic" }, format!("emit_term panicked on the caller thread: {}", status));
             continue;
         }
         let msg = me.msg_text();
@@ -1004,12 +1125,28 @@ fn section_events(seed: u64, section: &str, from: u64, to: u64, compound: bool) 
                             props: vec![Prop::new("vid", M::Str(vid.clone()), Cap::Typed), Prop::new("m", M::Map(vec![(k.clone(), v.clone()), (M::Str("z".into()), v.clone())]), cap)],
                             kind: Kind::Log,
                             directed: Some("quirk".into()),
+                            ambient: Vec::new(),
+                            clock: None,
+                            wild: None,
+                            macro_site: None,
                         });
                     }
                 }
             }
             out.into_iter().enumerate().map(|(i, e)| (i as u64, e)).filter(|(i, _)| *i >= from && *i < to).collect()
         }
+        "rt" => (from..to)
+            .map(|i| {
+                let mut g = Rng::stream(seed, &[13, 2, i]);
+                (i, gen_rt_event(&mut g, seed, section, i))
+            })
+            .collect(),
+        "wild" => (from..to)
+            .map(|i| {
+                let mut g = Rng::stream(seed, &[13, 3, i]);
+                (i, gen_wild_event(&mut g, seed, section, i))
+            })
+            .collect(),
         _ => (from..to)
             .map(|i| {
                 let mut g = Rng::stream(seed, &[13, 1, i]);
@@ -1034,6 +1171,25 @@ fn run_batch(r: &mut Report, collector: &Collector, root: &str, seed: u64, secti
         if me.has_duplicates() {
             cx.r.observe("events-with-duplicate-keys", 1);
         }
+        if !me.ambient.is_empty() {
+            cx.r.observe(&format!("rt:ambient-depth:{}", me.ambient.len()), 1);
+            let shadowed = me.ambient.iter().flatten().filter(|p| me.props.iter().any(|q| q.key == p.key)).count();
+            cx.r.observe("rt:ambient-props-shadowed-by-event", shadowed as u64);
+            cx.r.observe("rt:ambient-props", me.ambient.iter().map(|f| f.len() as u64).sum());
+            cx.r.observe(if me.macro_site.is_some() { "rt:macro-site-events" } else { "rt:built-events" }, 1);
+        }
+        if let Some(w) = me.wild {
+            let nanos = |(s, n): (u64, u32)| s as u128 * 1_000_000_000 + n as u128;
+            let class = match w {
+                (None, b) => if nanos(b) > u64::MAX as u128 { "point-beyond-u64" } else { "point" },
+                (Some(a), b) if nanos(a) > nanos(b) => "inverted",
+                (Some(a), b) if nanos(a) == nanos(b) => "zero-length",
+                (Some(a), b) if nanos(b) > u64::MAX as u128 && nanos(a) <= u64::MAX as u128 => "straddling-u64",
+                (Some(_), b) if nanos(b) > u64::MAX as u128 => "range-beyond-u64",
+                _ => "range",
+            };
+            cx.r.observe(&format!("wild:{}:{:?}", class, me.kind), 1);
+        }
         if me.props.len() > 2 {
             cx.r.nontrivial(&sig);
         }
@@ -1045,11 +1201,11 @@ fn run_batch(r: &mut Report, collector: &Collector, root: &str, seed: u64, secti
     let batch = format!("{}-{}-{}", section, from, to);
     if sinks.contains("file") {
         let dir = format!("{}/{}", root, batch);
-        run_file(&mut cx, &dir, &events);
+        run_file(&mut cx, &dir, &events, section == "rt");
         let _ = std::fs::remove_dir_all(&dir);
     }
     if sinks.contains("otlp") {
-        run_otlp(&mut cx, collector, &batch, &events, dump);
+        run_otlp(&mut cx, collector, &batch, &events, dump, section == "rt");
     }
     if sinks.contains("term") {
         run_term(&mut cx, &events, from, to, compound);
@@ -1110,6 +1266,21 @@ fn main() {
     let batches2 = (n2 + batch - 1) / batch;
     par_cases(&mut r, &args, batches2, |b, r| {
         run_batch(r, &collector, &root, seed, "compound", b * batch, ((b + 1) * batch).min(n2), true, &sinks, dump);
+    });
+
+    // 4. events emitted through a runtime (static and AmbientSlot) whose ambient context holds
+    //    some of the same keys: the event wins over ambient, inner frames over outer ones
+    let n3 = args.get_u64("rt-events", args.n(6_000, 400_000));
+    let batches3 = (n3 + batch - 1) / batch;
+    par_cases(&mut r, &args, batches3, |b, r| {
+        run_batch(r, &collector, &root, seed, "rt", b * batch, ((b + 1) * batch).min(n3), false, &sinks, dump);
+    });
+
+    // 5. hostile extents on every kind
+    let n4 = args.get_u64("wild-events", args.n(4_000, 300_000));
+    let batches4 = (n4 + batch - 1) / batch;
+    par_cases(&mut r, &args, batches4, |b, r| {
+        run_batch(r, &collector, &root, seed, "wild", b * batch, ((b + 1) * batch).min(n4), false, &sinks, dump);
     });
 
     collector.stop();
